@@ -58,6 +58,7 @@
     }
 
     pub(crate) fn mk_decoder<R>(inner: R, range: u32, code: u32) -> RangeDecoder<R> { RangeDecoder { inner, range, code } }
+    pub(crate) fn rc_view<R>(d: &RangeDecoder<R>) -> (u32, u32, &R) { (d.range, d.code, &d.inner) }
 
     // ---- bit-channel stubs for the decoder side
     pub(crate) fn dec_bit_stub<R: RangeReader>(_s: &mut RangeDecoder<R>, prob: &mut u16) -> i32 {
